@@ -346,7 +346,22 @@ class CertFam(Family):
         for _ in range(rng.randrange(6, 16)):
             rng.shuffle(ids)
             use = ids[:max(1, min(n, rng.choice([1, 1, 2, q, q])))]
-            kind = rng.choice(["single", "single", "qc", "batch", "tc", "digest-clash", "batch-boundary"])
+            kind = rng.choice(["single", "single", "qc", "batch", "tc", "digest-clash", "batch-boundary", "create"])
+            if kind == "create":
+                # what CreateQuorumCert / CreateTimeoutCert / CreateAggregateQC COMBINE at the verifying replica is
+                # not thereby verified: votes over another block, timeouts of another view
+                a = nm("k")
+                for i in use:
+                    L.append(f"create-pc {i} B2 {a}w{i}")
+                L.append(f"create-qc {v} {a} B1 " + " ".join(f"{a}w{i}" for i in use))     # votes are for B2
+                L.append(f"verify-qc {v} {a}")
+                L.append(f"verify-qc {v} {a}")
+                L.append(f"create-qc {v} {a}g B1 " + " ".join(f"p{i}" for i in use))        # genuine
+                L.append(f"verify-qc {v} {a}g")
+                L.append(f"qc {a}x sig={a}.sig view=2 hash=B2")                              # the same bytes for the right block
+                L.append(f"verify-qc {v} {a}x")
+                L.append(f"verify-qc {v} {a}")
+                continue
             if kind == "batch-boundary" and len(ids) >= 2:
                 # two batches whose per-signer messages, written one after the other with the signer ids but
                 # WITHOUT their lengths, read the same: {i: X, j: Y1|j|Y2} and {i: X|j|Y1, j: Y2}
